@@ -145,6 +145,26 @@ bool mutate(Built &b, const J &mut)
         b.loose.push_back(loose);
         return Variable::addEquivalence(v1, loose);
     }
+    if (op == "addEquivOrphan" || op == "addEquivForeign") {
+        // the partner lives in a component without a model / in another model, at a longer index path than anything here
+        auto v1 = b.varAt[static_cast<size_t>(mut["c1"].num())][static_cast<size_t>(mut["v1"].num())];
+        auto holder = Component::create("holder");
+        for (auto n : {"o1", "o2", "o3", "o4", "o5", "o6"}) {
+            auto o = Variable::create(n);
+            o->setUnits("dimensionless");
+            holder->addVariable(o);
+        }
+        b.extra.push_back(holder);
+        if (op == "addEquivForeign") {
+            auto other = Model::create("other");
+            for (auto n : {"f1", "f2", "f3", "f4", "f5", "f6", "f7"}) {
+                other->addComponent(Component::create(n));
+            }
+            other->addComponent(holder);
+            b.libs.push_back(other);
+        }
+        return Variable::addEquivalence(v1, holder->variable(5));
+    }
     if (op == "setPairId") {
         auto v1 = b.varAt[static_cast<size_t>(mut["c1"].num())][static_cast<size_t>(mut["v1"].num())];
         auto v2 = b.varAt[static_cast<size_t>(mut["c2"].num())][static_cast<size_t>(mut["v2"].num())];
@@ -192,6 +212,13 @@ bool mutate(Built &b, const J &mut)
     }
     if (!e) {
         return false;
+    }
+    if (op == "dupUnitRef") { // a further unit child naming the same units as child 0, with other attributes
+        if (!units || units->unitCount() == 0) {
+            return false;
+        }
+        units->addUnit(units->unitAttributeReference(0), "micro", 3.0, 100.0, "dupid");
+        return true;
     }
     if (op == "dupSibling") { // a second, identical child next to component t (same name: only the API can build this)
         if (!comp) {
@@ -558,6 +585,9 @@ static void cloneDrv(const J &sc, Emitter &out)
     std::string kind = ch.kinds.back();
     J ev = J::obj();
     ev.set("e", "clone").set("fv", sc["fv"]).set("t", t).set("mut", sc["mut"]).set("side", sc["side"]).set("kind", kind);
+    if (sc["pre"].k == J::OBJ) {
+        ev.set("pre", sc["pre"]);
+    }
     J before = contentOf(a.model);
     EntityPtr c = cloneOf(kind, target);
     ev.set("cloned", J(c != nullptr && preOk));
